@@ -281,6 +281,12 @@ def histories(alphabet, k_add, with_rm=True, with_rep=True, dup_names=(), k_afte
                 yield tuple(seq) + (('set', a),)
                 if any(op[1] == a for op in seq):
                     yield tuple(seq) + (('unset', a),)
+    # explicit forward=0 for every name (a legal index whenever the name has a leaf), after short add-sequences
+    for k in range(0, min(k_add, 2 if len(alphabet) <= 12 else 1) + 1):
+        for seq in itertools.product(adds, repeat=k):
+            for a in alphabet:
+                if a not in dup_names:
+                    yield tuple(seq) + (('addf', a, 0),)
     for a in dup_names:
         for i in range(0, 3):
             for k in range(0, max(0, k_add - 1) + 1):
